@@ -182,6 +182,18 @@ PROPS["C11"] = {
     "assumptions": H3_ASSUME,
 }
 
+PROPS["C14"] = {
+    "engine": "h3",
+    "level": "exploration",
+    "budget": {"quick": 40, "thorough": 600},
+    "runs_per_proc": 40,
+    "technique": "deterministic simulation of one real server with a foreign NATS client injecting structured corruptions of real frames (header byte flips, truncation to every short length, every header-length value, CRC flag without/with wrong CRC, wrong type byte, garbage, other envelope types) on every subject the server subscribes to; independent envelope decoder as oracle for what the stream stores",
+    "level_text": "system-level half of the property: no NATS handler task may panic, the server keeps serving regular publishes at the expected offsets, and every frame that arrived on the stream subject is stored either as exactly the envelope it encodes (independent decoder + CRC-32C) or verbatim; the encode/decode round trip is checked for publish and ack envelopes",
+    "level_note": "exhaustive coverage of all byte strings is NOT claimed (that half is a pure-function question outside this technique); frames with a header length below the fixed header are counted as undecided",
+    "rule": "programs of 20-80 (thorough -300) foreign frames; distinct = distinct event-log hash; non-trivial = >=10 frames of which >=3 on the stream subject",
+    "assumptions": H3_ASSUME,
+}
+
 NOT_APPLICABLE = [
     {"property_id": pid, "reason": "check not built yet in this round (engine under construction); see DESIGN.md section 9 build order"}
     for pid in ["C%02d" % i for i in range(1, 20)] if pid not in PROPS
